@@ -50,7 +50,7 @@ def run_obligations(rep: Report, modname: str, specs: list):
     with ThreadPoolExecutor(NCPU) as ex:
         results = list(ex.map(one, specs))
     for spec, (res, err, wall) in results:
-        name = spec["fn"] + (f"[{spec['split']}]" if spec.get("split") is not None else "")
+        name = spec["fn"] + (f"[{spec['split']}]" if spec.get("split") is not None else "") + spec.get("tag", "")
         ob = rep.add(Obligation(name=name, engine="XH", solver_s=wall))
         if res is None:
             ob.status, ob.detail = "inconclusive", "worker failed: " + err
